@@ -3,7 +3,7 @@
    [accepted] is the model of what CreateTopic (and therefore auto-creation, which
    goes through it) admits with fixes/C22-topic-name-validation.patch applied. *)
 From Coq Require Import String.
-From KS Require Import lib.Base lib.Strings lib.Paths model.MetaStore proofs.MetaStoreProofs proofs.MetaStoreKeys.
+From KS Require Import lib.Base lib.Strings lib.Paths model.MetaStore proofs.MetaStoreProofs proofs.MetaStoreKeys proofs.MetaStoreParse proofs.MetaStoreFlat.
 Open Scope Z_scope.
 
 (* acceptance in the model is exactly the validation CreateTopic performs *)
@@ -63,6 +63,23 @@ Proof.
   - now apply delete_prefix_free.
 Qed.
 Print Assumptions C22_metadata_keys_isolated.
+
+(* the etcd key space is one flat map shared by all key families (next offsets, topic configs,
+   partition states, assignments, consumer groups, consumer offsets, the snapshot key): for
+   '/'-free names keys of different families never coincide, the prefix DeleteTopic removes
+   reaches no key outside the topics subtree, and the two parsers that scan the shared
+   /kafscale/consumers subtree never take a key of the other family for one of theirs *)
+Theorem C22_key_families_disjoint :
+  (forall f f' g t p g' t' p', f <> f' -> names_noslash g t -> names_noslash g' t' ->
+     key_of f g t p <> key_of f' g' t' p') /\
+  (forall n f g t p, top_of f <> 0 -> has_prefix (topic_delete_prefix n) (key_of f g t p) = false) /\
+  (forall g t p, name_ok g -> name_ok t -> int32_ok p = true -> parse_group_key (coff_key g t p) = None) /\
+  (forall g, name_ok g -> parse_coff_key (group_key g) = None).
+Proof.
+  split; [exact families_disjoint|]. split; [exact delete_prefix_stays_in_topics|].
+  split; [exact parse_group_of_coff|exact parse_coff_of_group].
+Qed.
+Print Assumptions C22_key_families_disjoint.
 
 (* the defect that the patch removes: with the old acceptance (any non-empty name)
    the statement is false *)
